@@ -18,7 +18,7 @@ def main():
             evidence_file=f"/verif/evidence/{pid}.json",
             replay_cmd_template=f"./check {pid} --replay {{path}}",
             engine=getattr(m, "ENGINE", "crosshair+z3"),
-            level_claimed=dict(category=m.LEVEL, text=m.CLAIM, design_ref="DESIGN.md section 7, " + pid),
+            level_claimed=dict(category=m.LEVEL, text=m.CLAIM, design_ref="DESIGN.md A.3-A.6 (as built); original plan: section 7, " + pid),
             level_note=m.LEVEL_NOTE,
             technique=m.TECHNIQUE,
         ))
